@@ -59,8 +59,11 @@ Lemma gen_walk_one_lookup_one_recursion :
   count_of ".NotFound" (ncalls flat_calls_ChildFirstOrdering_walk) = 1%nat.
 Proof. vm_compute. repeat split. Qed.
 
+(* no depth limit, size threshold or special id in walk (helpers included): its only integer
+   literals, if any, are the 0 and 1 of an index loop; no string literal *)
 Lemma gen_walk_no_literals :
-  flat_ints_ChildFirstOrdering_walk = [] /\ flat_lits_ChildFirstOrdering_walk = [].
+  forallb (fun z => existsb (Z.eqb z) [0; 1]%Z) flat_ints_ChildFirstOrdering_walk = true /\
+  flat_lits_ChildFirstOrdering_walk = [].
 Proof. vm_compute. split; reflexivity. Qed.
 
 Lemma gen_producer_skeleton :
@@ -72,7 +75,9 @@ Proof. vm_compute. repeat split; reflexivity. Qed.
 
 Lemma gen_next_skeleton :
   subseqb [".Err"; ".Done"] (ncalls flat_calls_ChildFirstOrdering_Next) = true /\
-  flat_ints_ChildFirstOrdering_Next = [0%Z].
+  (* the only literal of Next (helpers included) is the zero id that ends the stream *)
+  negb (match flat_ints_ChildFirstOrdering_Next with [] => true | _ => false end) &&
+  forallb (Z.eqb 0) flat_ints_ChildFirstOrdering_Next = true.
 Proof. vm_compute. split; reflexivity. Qed.
 
 Lemma gen_err_close_skeleton :
